@@ -1,6 +1,9 @@
 #include <fault/util.hpp>
 
 #include <yaclib/fault/injector.hpp>
+#ifdef YACLIB_VERIF
+#  include <yaclib/fault/detail/verif.hpp>
+#endif
 
 #include <yaclib_std/thread>
 
@@ -27,6 +30,13 @@ bool Injector::NeedInject() noexcept {
   if (_pause) {
     return false;
   }
+#ifdef YACLIB_VERIF
+  if (verif::gHooks.need_inject != nullptr) {
+    if (const int r = verif::gHooks.need_inject(); r >= 0) {
+      return r != 0;
+    }
+  }
+#endif
   if (_count.fetch_add(1, std::memory_order_relaxed) >= sYieldFrequency) {
     Reset();
     return true;
